@@ -154,6 +154,10 @@ static void apply_env(jv *s)
     if (r != n && !keep_going) { jv *o = j_mkint(r); diverge("envfail", k, s, o); }
   } else if (!strcmp(k, "exit")) {
     sk_child_exit(p, ((int) j_int(s, "code", 0) & 0xff) << 8);
+  } else if (!strcmp(k, "exitg")) {
+    sk_child_exit_keep(p, ((int) j_int(s, "code", 0) & 0xff) << 8);
+  } else if (!strcmp(k, "ggone")) {
+    sk_grand_gone(p);
   } else if (!strcmp(k, "die")) {
     sk_child_exit(p, (int) j_int(s, "sig", 15));
   } else if (!strcmp(k, "cclose")) {
@@ -420,8 +424,9 @@ static jv *obs_key(const char *key, jv *call, long r, jv *extra)
     return key[1] == 'w' ? cw : key[1] == 'x' ? cx : pp;
   }
   if (!strcmp(key, "cnb")) return j_mkint(c->exec_fds_nonblock);
-  if (!strcmp(key, "fchild")) { /* what the forked child saw in fork mode: [start's return value, pid(), wait(0)] */
-    jv *a = j_mkarr(); j_push(a, j_mkint(c->forkmode_child ? c->fork_ret : -999)); j_push(a, j_mkint(c->stdin_read)); j_push(a, j_mkint(c->stdin_eof)); return a;
+  if (!strcmp(key, "fchild")) { /* what the forked child saw in fork mode: [start's return value, pid(), wait(0), number of descriptors above 2] */
+    jv *a = j_mkarr(); j_push(a, j_mkint(c->forkmode_child ? c->fork_ret : -999)); j_push(a, j_mkint(c->stdin_read)); j_push(a, j_mkint(c->stdin_eof));
+    j_push(a, j_mkint(c->forkmode_child ? c->stdin_bad : -999)); return a;
   }
   if (!strcmp(key, "cexec")) return j_mkint(c->execd);
   if (!strcmp(key, "cmask")) return siglist(c->mask, 64);
@@ -891,6 +896,9 @@ static void fork_child_epilogue(int h, long r)
   me->fork_ret = (int) r;
   me->state = PS_RUNNING;
   me->execd = 0;
+  int extra = 0;  /* descriptors above 2 the forked child holds when start returns in it: only the exit handle may be there */
+  for (int i = 3; i < SK_MAXFD; i++) if (me->fd[i].ofd >= 0) extra++;
+  me->stdin_bad = extra;
   if (r == 0 && h > 0 && h < MAXH && H[h]) {
     K->in_api = 1;
     int q = reproc_pid(H[h]);
